@@ -59,7 +59,7 @@ static int parse_cfg(const script_t *s) {
                     char *comma = strchr(p, ',');
                     if (comma) *comma = 0;
                     int id, val;
-                    if (sscanf(p, "%d:%d", &id, &val) != 2 || id < 0 || id >= MAXTASK) return -1;
+                    if (sscanf(p, "%d:%d", &id, &val) != 2 || id < 0 || id >= 128) return -1;
                     R[id].id = id; R[id].val = val;
                     su->task[su->n++] = id;
                     p = comma ? comma + 1 : NULL;
@@ -422,11 +422,23 @@ static void my_free(void *p) {
 }
 
 /* ---- scenario ---- */
+static m_thpool_t *g_pool_w;     /* the handle as the tasks know it (m_thpool_free clears the caller's copy) */
 static void *task_fn(void *arg) {
     rec_t *r = arg;
     sched(ST_RUN);
     EV("task_start %d %d", r->id, r->val);
     for (int i = 0; i < r->val % 4; i++) sched(ST_RUN);     /* tasks of different lengths */
+    if (r->val >= 100 && r->id < 128) {
+        /* a task that submits a follow-up task (id 128 + its own) from inside the pool: legal at any time, the pool
+         * cannot go away while one of its workers is running a task */
+        rec_t *ch = &R[128 + r->id];
+        ch->id = 128 + r->id; ch->val = r->val % 100;
+        sched(ST_RUN);
+        EV("add_call %d %d", ch->id, ch->val);
+        int rc = m_thpool_add(g_pool_w, task_fn, ch);
+        sched(ST_RUN);
+        EV("add_ret %d", rc);
+    }
     sched(ST_RUN);
     EV("task_end %d", r->id);
     return NULL;
@@ -458,6 +470,7 @@ static void run_script(const script_t *s) {
     g_pool = m_thpool_new((uint8_t)cfg_threads, (m_thpool_flags)cfg_flags);
     sched(ST_RUN);
     EV("new_ret %d", g_pool ? 1 : 0);
+    g_pool_w = g_pool;
     if (g_pool) {
         for (int k = 0; k < nsub; k++) S[k].tid = spawn(submitter, &S[k], 0, 1, NULL);
         sched(ST_JOINSUBS);
@@ -481,6 +494,8 @@ static void run_script(const script_t *s) {
 /* ======================================================================================== */
 static atomic_int execs[MAXTASK];
 static atomic_int wrong_arg, running_now, max_running;
+static int addrc[MAXTASK];
+static m_thpool_t *g_pool_w;
 static void *my_malloc(size_t n) { void *p = malloc(n); if (p) outstanding++; return p; }
 static void *my_calloc(size_t a, size_t b) { void *p = calloc(a, b); if (p) outstanding++; return p; }
 static void my_free(void *p) { if (!p) return; outstanding--; free(p); }
@@ -491,10 +506,15 @@ static void *task_fn(void *arg) {
     if (r->id < 0 || r->id >= MAXTASK || &R[r->id] != r) wrong_arg++;
     else execs[r->id]++;
     if (r->val & 1) sched_yield();
+    if (r->val >= 100 && r->id < 128) {
+        /* a task that submits a follow-up task from inside the pool */
+        rec_t *ch = &R[128 + r->id];
+        ch->id = 128 + r->id; ch->val = r->val % 100;
+        addrc[ch->id] = m_thpool_add(g_pool_w, task_fn, ch);
+    }
     running_now--;
     return NULL;
 }
-static int addrc[MAXTASK];
 static void *submitter(void *arg) {
     sub_t *su = arg;
     for (int k = 0; k < su->n; k++) {
@@ -511,14 +531,17 @@ static void run_script(const script_t *s) {
     for (int i = 0; i < MAXTASK; i++) { execs[i] = 0; addrc[i] = -9999; }
     g_pool = m_thpool_new((uint8_t)cfg_threads, (m_thpool_flags)cfg_flags);
     if (!g_pool) { printf("stress new-failed\n"); return; }
+    g_pool_w = g_pool;
     pthread_t th[MAXSUB];
     for (int k = 0; k < nsub; k++) pthread_create(&th[k], NULL, submitter, &S[k]);
     for (int k = 0; k < nsub; k++) pthread_join(th[k], NULL);
     int rc = m_thpool_free(&g_pool, cfg_waitall);
     int twice = 0, missing = 0, unaccepted = 0, ran = 0, acc = 0;
     for (int k = 0; k < nsub; k++)
-        for (int i = 0; i < S[k].n; i++) {
-            int id = S[k].task[i];
+        for (int i = 0; i < 2 * S[k].n; i++) {
+            /* every submitted task, then the follow-up task of each one that submits one */
+            int id = S[k].task[i % S[k].n];
+            if (i >= S[k].n) { if (R[id].val < 100) continue; id += 128; if (addrc[id] == -9999) continue; }
             if (addrc[id] == 0) acc++;
             if (execs[id] > 1) twice++;
             if (execs[id] >= 1) ran++;
